@@ -50,6 +50,8 @@ pub fn write_float<F: RawFloat, const FORMAT: u128>(
     bytes: &mut [u8],
     options: &Options,
 ) -> usize {
+    #[cfg(lexical_verif)]
+    lexical_util::verif::hit(lexical_util::verif::WRITE_DECIMAL);
     // PRECONDITIONS
 
     // Assert no special cases remain, no negative numbers,
